@@ -86,7 +86,7 @@ def run_one(tape: Tape, tier: str, opts: dict) -> dict:
         scn = S.gen_scenario(tape, prof)
         n_atoms = len(scn["atoms"])
         noise, kinds = gen_noise(tape, backend, n_atoms)
-        nmax = 12 if tier == "quick" else 50
+        nmax = 50 if (backend == "sv" or tier != "quick") else 12  # emu-sv trajectories are cheap: full range in every tier
         ntraj = tape.choice([1, 2, 3, 5, 8, nmax, tape.int(2, nmax, "n_any")], "n_trajectories")
         seq = S.build_sequence(scn)
         T = float(seq.get_duration(include_fall_time=bool(scn.get("modulation"))))
